@@ -17,7 +17,7 @@ RULE = ("every operation of the harness (jws sig/sig_io/ver/ver_io/hdr, jwe enc/
         "line. Failures: sanitizer report, changed caller reference counts, modified read-only argument, heap bytes "
         "retained after the results were released")
 EXPLANATION = ("bounds of fixed-buffer decodes and the reference-count discipline of the header functions / IO stages are "
-               "theorems (for every input text / every JSON type); memory safety of the compiled code at large is decided "
+               "theorems (for every input text / every JSON type; IO chains of any length: every release order of the handles keeps each count as specified and frees everything, Jose/Rc.lean); memory safety of the compiled code at large is decided "
                "by this instrumented run against the model's verdicts: validation, not proof")
 ASSUMPTIONS = ["heap balance is measured with __sanitizer_get_current_allocated_bytes around a second execution of the call "
                "(the first warms lazily initialised OpenSSL state), ERR queue cleared"]
